@@ -812,7 +812,7 @@ def check_scan_orders(entries, res, max_combos, tag):
     return viol
 
 
-EXCL_TREE = {"a.py": "f", "ab.py": "f", "t": "d", "t/a.py": "f", "t/x.py": "f", "u": "d", "u/t": "d", "u/t/y.py": "f", "u/ab.py": "f"}
+EXCL_TREE = {"a.py": "f", "ab.py": "f", "t": "d", "t/a.py": "f", "t/x.py": "f", "t/t.py": "f", "u": "d", "u/t": "d", "u/t/y.py": "f", "u/ab.py": "f"}
 EXT_IMPORTS = {"top/a.py": [("import", "os.path"), ("import", "xlib.sub.m"), ("from", "ylib", ("z",))],
                "top/u/ab.py": [("import", "xlib.other"), ("import", "os")]}
 
@@ -827,9 +827,11 @@ def check_option_orders(res, tag):
         write_tree(outer, {rel: source(fs) for rel, fs in files.items()}, dirs)
         root = os.path.join(outer, "top")
         globs = ["*a.py", "*/t", "*ab.py", "*x.py", "*u*", "*nomatch*"]
-        regexes = [r".*a\.py$", r".*/t$", r".*ab\.py", r".*/u(/.*)?$", r"nomatch"]
+        # the whole regex language is documented for regex_exclusions: groups, a back reference (a module file named
+        # like its package), a named group, an inline flag - each pattern stands for itself wherever it is listed
+        regexes = [r".*a\.py$", r".*/t$", r".*ab\.py", r".*/u(/.*)?$", r"nomatch", r".*/(\w+)/\1\.py$", r"(?i).*/T/X\.PY$", r".*/(?P<n>u)/(?P=n)?ab\.py$"]
         ext = ["os*", "xlib.sub*", "*lib", "*other", "ylib"]
-        ext_re = [r"os.*", r"xlib\.sub.*", r".*lib$", r"ylib"]
+        ext_re = [r"os.*", r"xlib\.sub.*", r".*lib$", r"ylib", r"(\w)lib\.o\1her$", r"(?i)OS\.PATH"]
         for key, pool, extra in (("exclusions", globs, {}), ("regex_exclusions", regexes, {}),
                                  ("external_exclusions", ext, {"exclude_external_libraries": False}),
                                  ("regex_external_exclusions", ext_re, {"exclude_external_libraries": False})):
